@@ -127,7 +127,9 @@ func (ex *Exec) initialHeapRefsOld(h Term) {
 	}
 	ex.cx.declConst("allocptr!0", SInt)
 	ap0 := Term{"allocptr!0", SInt}
-	ex.cx.assume(Term{fmt.Sprintf("(forall ((r!o Ref)) (! %s :pattern (%s)))", ex.refOld(ref, ap0).S, cell.S), SBool})
+	// only cells of objects that exist at entry (cells at addresses allocated
+	// later are initialised by whoever allocates them)
+	ex.cx.assume(Term{fmt.Sprintf("(forall ((r!o Ref)) (! (=> %s %s) :pattern (%s)))", ex.refOldStrict(Term{"r!o", SRef}, ap0).S, ex.refOld(ref, ap0).S, cell.S), SBool})
 }
 
 func (ex *Exec) freshHeap(prefix, name, sort string) Term {
